@@ -105,12 +105,13 @@ type LoopInfo struct {
 }
 
 type FnCtx struct {
-	eng      *Engine
-	fn       *ssa.Function
-	contract *FuncContract
-	name     string // display name pkg.Func
-	qname    string
-	tpkg     *types.Package
+	allocEvents []*allocEvent
+	eng         *Engine
+	fn          *ssa.Function
+	contract    *FuncContract
+	name        string // display name pkg.Func
+	qname       string
+	tpkg        *types.Package
 
 	svSort   map[string]Sort
 	svHeap   map[string]bool
@@ -154,7 +155,7 @@ type FnCtx struct {
 	closureOf   map[string]*ssa.MakeClosure // cell name -> single MakeClosure stored
 	storeOrd    map[*ssa.Store]int
 	syncSites   []*ssa.Go
-	bounded     int                         // >0: unroll loops this many times instead of cutting (refutation only)
+	bounded     int // >0: unroll loops this many times instead of cutting (refutation only)
 }
 
 type mapEnum struct {
